@@ -316,6 +316,15 @@ def scripts_from_window(tier, rng):
             ops.append({"op": "flush"})
         ops.append({"op": "emit", "pay": rng.choice([0, 2, 8, 16]), "kind": "u"})
         out.append(ops)
+    # the same fill levels with nothing after the call: the call under test (or, with only the filler,
+    # the closing event of the protocol) is the last thing before the final flush
+    seen = set()
+    for ops in list(out):
+        for cut in (ops[:1], ops[:2]):
+            key = json.dumps(cut, sort_keys=True)
+            if key not in seen:
+                seen.add(key)
+                out.append(cut)
     return out, r
 
 
@@ -425,6 +434,16 @@ def main(pid, tier):
         for pays in itertools.product((0, 2, 12, 16), repeat=n):
             small.append([{"op": "emit", "pay": p_, "kind": "u"} for p_ in pays] + [{"op": "flush"}]
                          + [{"op": "emit", "pay": 8, "kind": "u"}, {"op": "flush"}])
+    # segments (the events between two flushes) made of one kind of call only: a plain event, a mark,
+    # one or two jumbo events that fit -- every sequence of up to three such segments
+    segs = {"e": [{"op": "emit", "pay": 8, "kind": "u"}], "m": [{"op": "emit", "kind": "m", "pay": 12}],
+            "j": [{"op": "jumbo", "n": 100}], "jj": [{"op": "jumbo", "n": 40}, {"op": "jumbo", "n": 3000}]}
+    for n in (1, 2, 3):
+        for ks in itertools.product(sorted(segs), repeat=n):
+            ops = []
+            for i_, k_ in enumerate(ks):
+                ops += ([{"op": "flush"}] if i_ else []) + [dict(o) for o in segs[k_]]
+            small.append(ops)
     nsmall = len(small)
     scripts = extra + win + walks
     ck.notes["scripts"] = {"window_transitions": len(win), "random_walks": len(walks),
